@@ -81,8 +81,9 @@ impl Rg {
         };
         reap(&mut self.ring, &mut got);
         // a last look for anything more (also lets an SQPOLL thread finish)
+        // (entries of a ring without SQPOLL are issued inside io_uring_enter: nothing to wait for there)
         let t = std::time::Instant::now();
-        while got.len() < len as usize && t.elapsed().as_millis() < 300 {
+        while sq && got.len() < len as usize && t.elapsed().as_millis() < 300 {
             let _ = io_uring_enter(self.ring.fd, 0, 0, IoUringEnterFlags::IORING_ENTER_GETEVENTS);
             reap(&mut self.ring, &mut got);
             std::thread::yield_now();
@@ -259,9 +260,15 @@ pub fn run(args: &Args) -> Report {
                     }
                 };
                 r.outcome("setup:accepted");
+                let mut bad = 0;
                 'outer: for start in 0..k {
                     for s in &seqs {
                         if !run_case(&mut rg, e, start, s, &mut r, false) {
+                            bad += 1;
+                            if bad >= 25 {
+                                r.cap(format!("ringflags: ring {e} flags {}: stopped after {bad} violating cases", flags_name(flags)));
+                                break 'outer;
+                            }
                             // a ring that lost or invented entries is replaced; the remaining cases still run
                             match make(e, flags) {
                                 Ok(n) => rg = n,
